@@ -1069,7 +1069,8 @@ class StubsStringGenerator:
             return
 
         module_id = self._get_module_id(get_actual_id=True).replace("/", ".")
-        if module_id not in import_qname:
+        # The type has to lie in the module itself, a module "pkg.ab" is not part of a module "pkg.a"
+        if import_qname != module_id and not import_qname.startswith(f"{module_id}."):
             # We need the full path for an import from the same package, but we sometimes don't get enough information,
             # therefore we have to search for the class and get its id
             import_qname_path = import_qname.replace(".", "/")
